@@ -36,7 +36,7 @@ def _alarm(signum, frame):
     raise _Timeout()
 
 
-def call_with_timeout(thunk, seconds=10):
+def call_with_timeout(thunk, seconds=120):
     old = signal.signal(signal.SIGALRM, _alarm)
     signal.alarm(seconds)
     try:
@@ -142,6 +142,82 @@ def gen_tables(ck):
 
 
 KEY_MINMAX = 'minmax-zero-tie-fraction'
+KEY_SIZE = 'size-dim-rounded'
+
+
+def emitted_skeleton(fn):
+    """Statement skeleton of the Python AST the real BytecodeCompiler emits for `fn` (same text as
+    `skeleton` of coq/Lang/Compile.v prints for the model's compile scheme)."""
+    import ast as pyast
+    import re
+    from fpy2.interpret.byte import BytecodeCompiler, CTX_NAME, REAL_NAME
+    py = BytecodeCompiler(fn.ast, fn.env)._visit_function(fn.ast, None)
+    tmps = {}
+    for n in pyast.walk(py):
+        if isinstance(n, pyast.Name) and n.id.startswith('__fpy_ctx_tmp'):
+            m = re.search(r'(\d+)$', n.id)
+            tmps[n.id] = int(m.group(1)) if m else -1
+    rank = {nm: i for i, nm in enumerate(sorted(tmps, key=lambda k: tmps[k]))}
+
+    def name(i):
+        if i == CTX_NAME:
+            return 'ctx'
+        if i == REAL_NAME:
+            return 'real'
+        if i in rank:
+            return f't{rank[i]}'
+        return 'u:' + i
+
+    def target(t):
+        if isinstance(t, pyast.Name):
+            return name(t.id)
+        if isinstance(t, pyast.Tuple):
+            return '(' + ','.join(target(e) for e in t.elts) + ')'
+        return '?' + type(t).__name__
+
+    def value(e):
+        if isinstance(e, pyast.Name) and (e.id in (CTX_NAME, REAL_NAME) or e.id in rank):
+            return name(e.id)
+        return 'E'
+
+    def block(b):
+        return ''.join(stmt(s) + ';' for s in b)
+
+    def stmt(s):
+        if isinstance(s, pyast.Assign):
+            if len(s.targets) == 1 and isinstance(s.targets[0], pyast.Subscript):
+                t, k = s.targets[0], 0
+                while isinstance(t, pyast.Subscript):
+                    t, k = t.value, k + 1
+                return f'I[{t.id}/{k}]'
+            ts = [target(t) for t in s.targets]
+            if len(ts) > 1:
+                # `with e:` without `as` assigns the dead Python local `_` first; the model has no such target
+                ts = [t for t in ts if t != 'u:_']
+            return 'A[' + '='.join(ts) + '=' + value(s.value) + ']'
+        if isinstance(s, pyast.Expr):
+            return 'X'
+        if isinstance(s, pyast.If):
+            return 'If{' + block(s.body) + '}{' + block(s.orelse) + '}'
+        if isinstance(s, pyast.While):
+            return 'Wh{' + block(s.body) + '}' + ('?else' if s.orelse else '')
+        if isinstance(s, pyast.For):
+            return 'For[' + target(s.target) + ']{' + block(s.body) + '}' + ('?else' if s.orelse else '')
+        if isinstance(s, pyast.Try):
+            extra = ('?handlers' if s.handlers else '') + ('?else' if s.orelse else '')
+            return 'Try{' + block(s.body) + '}{' + block(s.finalbody) + '}' + extra
+        if isinstance(s, pyast.Return):
+            return 'R'
+        if isinstance(s, pyast.Assert):
+            return 'As'
+        if isinstance(s, pyast.Pass):
+            return 'P'
+        return '?' + type(s).__name__
+    return block(py.body)
+
+
+def skeletons(mod, prog):
+    return clist(f'("{f.name}", "{emitted_skeleton(getattr(mod, f.name))}")' for f in prog.funcs)
 
 
 class patched_minmax:
@@ -220,7 +296,7 @@ def load_case(ck, idx, prog, modname):
         return ('export-failed', str(e), prog)
     mine = {f.name: f.coq() for f in prog.funcs}
     same = all(mine.get(k) == v for k, v in exported.items()) and 'main' in exported
-    return ('ok', fn, same, (exported, mine))
+    return ('ok', fn, same, (exported, mine), skeletons(mod, prog))
 
 
 def make_case(ck, idx, rng, malformed, nargs):
@@ -230,7 +306,7 @@ def make_case(ck, idx, rng, malformed, nargs):
     r = load_case(ck, idx, prog, f'c04_prog_{idx:05d}')
     if r[0] != 'ok':
         return r
-    _, fn, same, terms = r
+    _, fn, same, terms, skel = r
     callers = [small_ctx(rng) for _ in range(3)]
     runs_in = []
     for j in range(nargs):
@@ -238,8 +314,24 @@ def make_case(ck, idx, rng, malformed, nargs):
         for caller in (None, callers[j % 3]):
             runs_in.append((args, caller))
     runs, metas = run_program(ck, fn, runs_in)
-    case = f'({prog.coq()}, "main", {clist(runs)})'
-    return ('ok', case, metas, prog, same, g.features, terms, fn, runs_in)
+    case = f'({prog.coq()}, "main", {clist(runs)}, {skel})'
+    return ('ok', case, metas, prog, same, g.features, terms, fn, runs_in, skel)
+
+
+def check_exact_counts(ck, fn, runs_in, prog):
+    """derived-semantics.rst: `Len / Size / Dim: exact integer counts, no rounding`."""
+    for args, caller in runs_in:
+        pa = [py_of_arg(a) for a in args]
+        try:
+            a, d, ln = fn(*pa) if caller is None else fn(*pa, ctx=caller.obj())
+        except Exception as e:  # noqa: BLE001
+            ck.violation('fp.size / fp.dim raised on a plain list', {'program': prog.source(), 'error': repr(e)})
+            continue
+        n = len(pa[3])
+        if not (a == n and d == 5 and ln == n):
+            ck.violation('fp.size / fp.dim return the count ROUNDED under the active context (documented: exact integer counts, no rounding)',
+                         {'program': prog.source(), 'args': [repr(x) for x in args], 'len(xs)': n,
+                          'observed (size(xs,0), dim(5-deep list), len(xs))': [str(a), str(d), str(ln)]}, key=KEY_SIZE)
 
 
 def directed_programs():
@@ -267,6 +359,38 @@ def directed_programs():
     out.append(('minmax-float-zero', Program([Func('main', params, None, body)]), None,
                 [([N.of(-0.0), N.of(0.0), N.of(1), [N.of(0.0), N.of(-0.0)], [N.of(1)]], None),
                  ([N.of(0.0), N.of(-0.0), N.of(1), [N.of(-0.0), N.of(0.0), N.of(float('nan'))], [N.of(1)]], None)]))
+    # size / dim: documented as exact integer counts; the implementation rounds them under the active context.
+    # The model follows the implementation here (theorem C04_size_exact_refuted); `check_exact_counts` states the property.
+    deep = Node('list', [Node('list', [Node('list', [Node('list', [Node('list', [V('x')])])])])])
+    body = [Node('with', None, Node('ctor', 'MPFloat', 'RNE', None, [L(2)]), [
+                Node('assign', PVn('a'), Node('size', V('xs'), L(0))),
+                Node('assign', PVn('d'), Node('dim', deep)),
+                Node('assign', PVn('l'), Node('len', V('xs')))]),
+            Node('return', Node('tuple', [V('a'), V('d'), V('l')]))]
+    out.append(('size-dim-exact', Program([Func('main', params, None, body)]), None,
+                [([N.of(1), N.of(1), N.of(1), [N.of(k) for k in range(5)], [N.of(1)]], None),
+                 ([N.of(1), N.of(1), N.of(1), [N.of(k) for k in range(7)], [N.of(1)]], CtxSpec('MPFloat', p=3))]))
+    # strict helpers: one offending access per program, so the exception class is the observed outcome
+    base_args = [([N.of(1), N.of(2), N.of(k), [N.of(1.5), N.of(-2), N.of(0.1), N.of(7)], [N.of(3), N.of(4)]], None) for k in (1, 2, 3)]
+    strict = {
+        'neg-index-literal': Node('ref', V('xs'), L(-1)),
+        'neg-index-computed': Node('ref', V('xs'), Node('op2', 'sub', V('n'), L(2))),
+        'index-past-end': Node('ref', V('xs'), Node('op2', 'add', V('n'), L(2))),
+        'index-fractional': Node('ref', V('xs'), Node('op2', 'div', V('n'), L(2))),
+        'slice-stop-past-end': Node('slice', V('xs'), L(1), Node('op2', 'add', V('n'), L(2))),
+        'slice-start-gt-stop': Node('slice', V('xs'), L(2), V('n')),
+        'slice-negative-start': Node('slice', V('xs'), Node('op2', 'sub', V('n'), L(2)), None),
+        'zip-ragged': Node('zip', [V('xs'), V('ys'), Node('range', [Node('op2', 'add', V('n'), L(1))])]),
+        'range-fractional': Node('range', [Node('op2', 'div', V('n'), L(2))]),
+        'min-empty': Node('amin', Node('slice', V('xs'), V('n'), L(2))),
+        'mutate-neg-index': None,
+    }
+    for nm, e in strict.items():
+        if e is None:
+            body = [Node('iassign', 'xs', [Node('op2', 'sub', V('n'), L(2))], V('x')), Node('return', V('xs'))]
+        else:
+            body = [Node('assign', PVn('r'), e), Node('return', Node('tuple', [V('r'), V('xs')]))]
+        out.append(('strict:' + nm, Program([Func('main', params, None, body)]), None, base_args))
     # a context leaking past its block on an early return from nested loops, then used again by the caller
     c2 = Node('ctor', 'MPFloat', 'RNE', None, [L(2)])
     helper = Func('scan', ['zs', 't'], None, [
@@ -301,7 +425,11 @@ def run(ck):
                        'elementary functions excluded from generated programs (C03)']
     ok, _ = ck.build_static(['Props/C04.v', 'Cases/C04Cases.v'])
     if ok:
-        ck.props('Props/C04.v')
+        import re
+        from ..common import COQ, strip_comments
+        names = re.findall(r'Print Assumptions\s+([A-Za-z0-9_\'.]+)\s*\.', strip_comments((COQ / 'Props/C04.v').read_text()))
+        # every C04 theorem is about Z / lists / strings only: expected axiom-free
+        ck.props('Props/C04.v', closed=tuple(names))
 
     gen_tables(ck)
 
@@ -313,26 +441,39 @@ def run(ck):
     cases, info = [], []
     rejected = 0
     t0 = time.time()
+    only = None
+    if ck.replay:
+        import json
+        rp = json.loads(open(ck.replay).read())
+        only = (rp.get('replay') or {}).get('program_tag')
+        ck.seed = rp.get('seed', ck.seed)
+        ck.log(f'replaying {only} (seed {ck.seed})')
 
-    def add_case(tag, case, metas, prog, fn, runs_in, key, malformed):
+    def add_case(tag, case, metas, prog, fn, runs_in, key, malformed, skel):
         cases.append(case)
-        info.append({'tag': tag, 'prog': prog, 'metas': metas, 'fn': fn, 'runs_in': runs_in, 'key': key, 'malformed': malformed})
+        info.append({'tag': tag, 'prog': prog, 'metas': metas, 'fn': fn, 'runs_in': runs_in, 'key': key, 'malformed': malformed, 'skel': skel})
 
     for di, (name, prog, key, runs_in) in enumerate(directed_programs()):
+        if only and only != 'directed:' + name:
+            continue
         r = load_case(ck, di, prog, f'c04_directed_{di:02d}')
         if r[0] != 'ok':
             ck.broken.append(f'directed program {name}: {r[0]}: {r[1]}')
             continue
-        _, fn, same, terms = r
+        _, fn, same, terms, skel = r
         if not same:
             ck.violation('the AST built by the real parser/decorator differs from the program text (directed program)',
                          {'program': prog.source(), 'generated': terms[1], 'parsed': terms[0]})
         runs, metas = run_program(ck, fn, runs_in)
+        if name == 'size-dim-exact':
+            check_exact_counts(ck, fn, runs_in, prog)
         ck.count('directed:' + name)
         ck.nontriv(('directed', name))
-        add_case('directed:' + name, f'({prog.coq()}, "main", {clist(runs)})', metas, prog, fn, runs_in, key, False)
+        add_case('directed:' + name, f'({prog.coq()}, "main", {clist(runs)}, {skel})', metas, prog, fn, runs_in, key, False, skel)
 
     for idx in range(nprog):
+        if only and only != f'random:{idx}':
+            continue
         malformed = (idx % 8 == 7)
         r = make_case(ck, idx, Rng(ck.seed, f'c04-{idx}'), malformed, nargs)
         if r[0] != 'ok':
@@ -342,7 +483,7 @@ def run(ck):
                 ck.log(f'program {idx} {r[0]}: {r[1]}')
                 ck.log(r[2].source())
             continue
-        _, case, metas, prog, same, feats, terms, fn, runs_in = r
+        _, case, metas, prog, same, feats, terms, fn, runs_in, skel = r
         if not same:
             ck.violation('the AST built by the real parser/decorator differs from the program text that was generated '
                          '(operator or node mapped to a different construct)',
@@ -350,7 +491,7 @@ def run(ck):
         for f in feats:
             ck.count('feature:' + f)
         ck.nontriv(('prog', idx))
-        add_case(f'random:{idx}', case, metas, prog, fn, runs_in, None, malformed)
+        add_case(f'random:{idx}', case, metas, prog, fn, runs_in, None, malformed, skel)
     ck.log(f'{len(cases)} programs generated and run on fpy2 in {time.time() - t0:.1f}s ({rejected} rejected)')
     if rejected > nprog // 20:
         ck.broken.append(f'generator: {rejected} of {nprog} generated programs were rejected by the fpy2 front end')
@@ -372,7 +513,7 @@ def run(ck):
         with patched_minmax():
             for i in cls:
                 runs, _ = run_program(ck, info[i]['fn'], info[i]['runs_in'], count=False)
-                retry.append(f'({info[i]["prog"].coq()}, "main", {clist(runs)})')
+                retry.append(f'({info[i]["prog"].coq()}, "main", {clist(runs)}, {info[i]["skel"]})')
         still, err2 = ck.coq_eval_mismatches(HEADER, 'case4', retry, 'check4', chunk=max(1, (len(retry) + 15) // 16), timeout=1500, tag='retry')
         if err2:
             ck.broken.append('classification run failed: ' + err2[:400])
@@ -386,11 +527,12 @@ def run(ck):
             out = ''
             if key is None and ndiag < 4:
                 ndiag += 1
-                out = ck.coq_eval_raw(HEADER, f'let c := {cases[i]} in (bad_runs4 c, map (model4 (fst (fst c)) (snd (fst c))) (snd c))',
+                out = ck.coq_eval_raw(HEADER, f'let c := {cases[i]} in (bad_runs4 c, models4 c, bad_skels4 c)',
                                       name='diag_' + it['tag'].replace(':', '_'), timeout=600)
             ck.violation('fpy2 and the model of the documented semantics disagree on a program'
                          + (' (only in the +-0 tie-break of min/max with a Fraction zero)' if key else ''),
-                         {'program_tag': it['tag'], 'program': it['prog'].source(), 'runs': it['metas'], 'model_says': out[-3000:],
+                         {'program_tag': it['tag'], 'program': it['prog'].source(), 'runs': it['metas'], 'emitted_skeletons': it['skel'],
+                          'model_says(bad run indices, model results, functions whose emitted statement scheme differs + expected scheme)': out[-3000:],
                           'malformed_stream': it['malformed']}, key=key)
     # the recorded finding must still be observable through the directed program (otherwise the record is stale)
     for i, it in enumerate(info):
